@@ -22,6 +22,7 @@
 import Gts.Lemmas.Fasta
 import Gts.Bridge.FastaWrite
 import Gts.Lemmas.FastaAutoMixed
+import Gts.Spec.CliWriters
 namespace Gts.C17
 open Gts Gts.Pars Gts.Fasta
 
@@ -558,5 +559,36 @@ theorem auto_skips_broken_locus_witness :
     (Auto.scanAll GenBank.Registry.default
       (GenBank.bs "LOCUS       X                  0 bp    XNA     linear   UNA 01-JAN-2000\n>a\nAC\n")).summary =
       some ([(false, 2)], true) := by decide +kernel
+
+/-! ### the CLI path `gts <cmd> -F fasta` (generated table `Gts/Gen/CliWriters.lean`, re-read from
+cmd/gts/*.go, seqio/filetype.go and seqio/writer.go on every run) -/
+
+/-- **Every subcommand that writes sequences declares `-F` / `--format` and hands it to
+`seqio.NewWriter`.**  For every function of cmd/gts that calls `seqio.NewWriter` or `WriteSeq` (facts
+from the AST): the option is `opt.String('F', "format", "", …)`; the file type given to every
+`NewWriter` call is one variable, assigned from `seqio.Detect(*output)` and then, under
+`if *format != ""`, from `seqio.ToFileType(*format)`, both before the writer is made; every `WriteSeq`
+goes to such a writer.  So a non-empty `-F` value decides the writer, whatever the output path says. -/
+theorem cli_format_reaches_writer :
+    ∀ w ∈ Gen.CliWriters.writers, CliWriters.declaresFormat w = true ∧ CliWriters.formatReachesWriter w = true := by
+  decide
+
+/-- the same as a report (what `bin/check` would print): nothing is missing -/
+theorem cli_format_report : CliWriters.report = [] := by decide
+
+/-- **`-F fasta` selects the FASTA writer, `-F gb` / `genbank` the GenBank writer, no `-F` and no
+known extension auto-detection** (the string switch of `seqio.ToFileType` and the FileType switch of
+`seqio.NewWriter`, as tables): the writer whose output the theorems above are about
+(`fastaWriteSeq`, `writer_cases`, `genbank_to_fasta_real`) is the one the command uses. -/
+theorem cli_fasta_selects_fasta_writer :
+    CliWriters.writerOf (CliWriters.fileTypeOf "fasta") = "FastaWriter" ∧
+    CliWriters.writerOf (CliWriters.fileTypeOf "gb") = "GenBankWriter" ∧
+    CliWriters.writerOf (CliWriters.fileTypeOf "genbank") = "GenBankWriter" ∧
+    CliWriters.writerOf (CliWriters.fileTypeOf "") = "AutoWriter" := by decide
+
+/-- non-vacuity: the table is not empty; it holds the subcommands the harness oracle `cli.fasta` runs -/
+example : (Gen.CliWriters.writers.map (·.name)).length ≥ 5 ∧
+    (["clear", "complement", "repair", "reverse", "sort"].all
+      (Gen.CliWriters.writers.map (·.name)).contains) = true := by decide
 
 end Gts.C17
